@@ -84,11 +84,15 @@ LateTargets == { << Q("a","ax") >>, << Q("a","r") >>,
                  << Q("a","c"), Q("a","act"), Q("a","input") >>,
                  << Q("a","c"), Q("a","act"), Q("a","output") >>,
                  << Q("a","r3"), Q("a","output"), Q("a","oc") >>,
+                 \* descendant-form paths (no leading slash), which a top-level augment cannot have; they name a child of
+                 \* the augment's own payload (x, y) or nothing
+                 << Q("rel",""), Q("","x") >>, << Q("rel",""), Q("","y") >>, << Q("rel",""), Q("a","c") >>,
                  << Q("a","c") >> }
 LateChain == { << Q("a","c"), Q("a","ch"), Q("a","sc"), Q("a","sc") >>,
                << Q("a","c"), Q("a","ch"), Q("a","sc"), Q("a","sc"), Q("b","x") >>,
                << Q("a","c"), Q("a","ch"), Q("a","sc"), Q("a","sc"), Q("b","pc") >>,
                << Q("a","c"), Q("b","pc") >>,
+               << Q("a","e") >>,          \* (independent of what b does)
                << Q("a","c"), Q("b","x") >> }
 SAugLate(dummy) ==
   { Prog(("a" :> BaseA("unset")) @@ ("b" :> ModB(<<Aug(t1, p1)>>)) @@ ("c" :> ModC(<<Aug(t2, p2)>>))) :
@@ -320,6 +324,9 @@ SDev3(dummy) ==
        t1 \in {x \in DevTargets : x.p = << Q("a","ld") >>}, t2 \in {x \in DevTargets : x.k \in {"leafd", "container"}},
        d1 \in {Dv("delete", << S1("default", "dv") >>), Dv("add", << Cfg("false") >>), Dv("not-supported", <<>>)},
        d2 \in {Dv("add", << S1("default", "z") >>), Dv("replace", << S1("default", "w") >>), Dv("add", << Cfg("false") >>), Dv("not-supported", <<>>)} }
+  \cup     \* not-supported written twice in one deviation, and again by a second deviation of the same target
+  { DevProg(<< Dev(t, << Dv("not-supported", <<>>), Dv("not-supported", <<>>) >>) >>, <<>>, FALSE) :
+       t \in {x \in DevTargets : x.p \in {<< Q("a","ld") >>, << Q("a","co") >>, << Q("a","u"), Q("a","gl") >>}} }
   \cup
   { DevProg(<< Dev(t, << d1 >>) >>, << Dev(t, << d2 >>) >>, FALSE) :
        t \in {x \in DevTargets : x.k = "leafd"},
